@@ -70,14 +70,23 @@ ASSUMPTIONS = [
     "mutable object is reachable from two different root objects)",
     "finite flows; the consumer of Split.run does not mutate a yielded value before the run has finished",
     "data of accumulators other than Sum/Count/Mean are opaque (their values are the subject of C09)",
+    "Zip of accumulators: the branches yield exactly one value per compute() or raise (one round of Zip._yield)",
 ]
-RULE = ("split cases: 1-4 branches of the four kinds, 0-3 mutating elements each (Variable, UpdateContext, MakeFilename, "
-        "Count, Slice, user mutators of context and of data), terminal Sum/Count/StoreFilled/user elements, flows of 0-7 "
-        "values (bare, with nested contexts, with list data), bufsize in {1,2,3,len,len+1,1000,None}, driven by run, by "
-        "fill+compute/request and through Zip._fill; copy_buf=False and aliased flows for the correspondence only. "
-        "accumulator cases: every accumulator kind x histories of up to 8 fill/compute/mutate/refill operations "
-        "(all histories up to 4 operations over a small alphabet are enumerated). Non-trivial: at least one yielded "
-        "value with a context and at least one in-place mutation or copy.")
+RULE = ("split cases: 0-4 branches of the four kinds (given as explicit sequences or as plain tuples that Split converts), "
+        "0-3 mutating elements each (Variable, UpdateContext, MakeFilename, Count, Slice, user mutators of context, of list "
+        "data and of dict data, a user Run element that yields at the end of every run), terminal Sum/Count/Mean/StoreFilled/"
+        "user elements, flows of 0-7 values (bare, with nested contexts, with list or dict data), bufsize in "
+        "{1,2,3,len,len+1,1000,None}, driven by run, by fill+compute/request and through Zip._fill; copy_buf=False and "
+        "aliased flows for the correspondence only; every branch starts with a probe that records whether it was handed "
+        "the caller's objects. accumulator cases: every accumulator kind (Sum, DSum, Count, Mean with four kinds of "
+        "sum_seq, VarianceMeanCount, Vectorize of one element and of a list, Histogram, SplitIntoBins, Graph with and "
+        "without an initial context, StoreFilled in both modes, GroupBy, Zip of 1-3 accumulators with and without fields, "
+        "FillComputeSeq, the FillCompute adapter, Split used through its common-type methods) x histories of up to 8 "
+        "fill/compute/mutate/refill/reset operations (all histories up to 4 operations over a small alphabet are "
+        "enumerated). Besides the object graph of the real run, the driver executes the specification-side definitions "
+        "(handCells/Disj, proj, aloneTrace, aloneFillLife, runHist, fillAll, the instances of FreshYield and Local) and the "
+        "harness compares them with the real run (probes, the branch alone). Non-trivial: at least one yielded value with "
+        "a context and at least one in-place mutation or copy.")
 CASE_TIMEOUT = 10
 
 warnings.filterwarnings("ignore")
